@@ -125,6 +125,8 @@ pub enum After {
     Rethreshold(usize, f32),
     /// `next^k . block_size(b2) . next*` on one scanner (hits after the change go to `post`)
     Reblock(usize, usize),
+    /// `next^k . threshold(t2) . max()` on one scanner
+    RethresholdMax(usize, f32),
     /// k × next(), then the best remaining hit asked through the ITERATOR interface: `scanner.by_ref().max()`
     /// (`Iterator::max` on `&mut Scanner`, which ranks hits by `Ord for Hit` and not by `Scanner::max`)
     MaxByRef(usize),
@@ -222,6 +224,18 @@ pub fn run_scanner(cfg: &Config, after: &After) -> Result<RunOut, String> {
                             None => break,
                         }
                     }
+                }
+                After::RethresholdMax(k, t2) => {
+                    for _ in 0..*k {
+                        out.calls += 1;
+                        match sc.next() {
+                            Some(h) => out.hits.push((h.position(), h.score())),
+                            None => break,
+                        }
+                    }
+                    sc.threshold(*t2);
+                    out.calls += 1;
+                    out.max = Some(sc.max().map(|h| (h.position(), h.score())));
                 }
                 After::MaxByRef(k) => {
                     for _ in 0..*k {
@@ -845,6 +859,66 @@ fn sweep(mode: Mode, ctx: &mut Ctx, rep: &mut Report) {
             }
         }
     }
+    // ---- threshold RAISED in the middle of a scan, then max() (C03 only) ------------------------------
+    if mode == Mode::C03 && ctx.wants("rethreshold_max") {
+        sink.rep.space(
+            "rethreshold_max",
+            "histories threshold(t1) . next^k . threshold(t2) . max() on ONE scanner with t2 > t1: lengths {33,70,100,200} x 2 contents x matrices (M in 1..=3, 12 from the menu x wildcard {-inf, row mean}) x block sizes {1,2,3,256} x ordered pairs t1 < t2 of <= 5 attainable thresholds x k in 0..=6 x 3 dispatcher arms; \
+             oracle: as for next^k . max under threshold t2 - the position returned was not yielded before, meets t2 and no unconsumed position scores higher; None only if no unconsumed position meets t2",
+        );
+        let mats: Vec<(usize, u64)> = vec![(1, 0), (1, 3), (1, 6), (2, 1), (2, 14), (2, 55), (3, 9), (3, 100), (3, 511), (2, 62), (1, 5), (3, 300)];
+        for &l in &[33usize, 70, 100, 200] {
+            for pat in [0usize, 2] {
+                let seq = content(l, pat);
+                for &(m, mi) in &mats {
+                    for wild in [0usize, 2] {
+                        let idx = base;
+                        base += 1;
+                        if !ctx.mine(idx) {
+                            continue;
+                        }
+                        let matrix = matrix_from_digits(&model::nth_word(mi, m, nrows), wild);
+                        let ts = threshold_menu(&matrix, &seq, 3);
+                        let probe = Config { seq: seq.clone(), matrix: matrix.clone(), threshold: 0.0, block: 1, arm: Forced::Generic, origin: String::new(), pre_wrap: None, exact: false, spare: 0 };
+                        let or = Oracle::new(&probe);
+                        for &t1 in ts.iter().take(5) {
+                            for &t2 in ts.iter().take(6) {
+                                if !(t2 > t1) {
+                                    continue;
+                                }
+                                for &block in &[1usize, 2, 3, 256] {
+                                    for arm in cfgs::FORCED {
+                                        for k in 0..=6usize {
+                                            let cfg = Config { seq: seq.clone(), matrix: matrix.clone(), threshold: t1, block, arm, origin: format!("rethreshold_max L={} content={} M={} matrix#{} wild={}", l, pat, m, mi, wild), pre_wrap: None, exact: false, spare: 0 };
+                                            let cfg2 = Config { threshold: t2, ..cfg.clone() };
+                                            sink.rep.eval_distinct(!or.exact.is_empty());
+                                            sink.states += 1;
+                                            let js = |cfg: &Config| {
+                                                let mut j = cfg.json();
+                                                j["kind"] = json!("rethreshold_max");
+                                                j["k"] = json!(k);
+                                                j["threshold2"] = model::f32_to_json(t2);
+                                                j
+                                            };
+                                            match run_scanner(&cfg, &After::RethresholdMax(k, t2)) {
+                                                Err(p) => sink.rep.violation(format!("C03 {} rethreshold_max panic {}", cfgs::arm_name(arm), vx_core::util::panic_class(&p)), format!("panic: {}", p), || js(&cfg)),
+                                                Ok(out) => {
+                                                    sink.transitions += out.calls as u64;
+                                                    if let Err((sig, msg)) = judge_max(&cfg2, &or, &out) {
+                                                        sink.rep.violation(format!("C03 {} rethreshold_max {}", cfgs::arm_name(arm), sig), format!("threshold {} -> {} after {} next() calls: {}", t1, t2, k, msg), || js(&cfg));
+                                                    }
+                                                }
+                                            }
+                                        }
+                                    }
+                                }
+                            }
+                        }
+                    }
+                }
+            }
+        }
+    }
     // ---- block size changed in the middle of a scan (C02 only) -------------------------------------
     if mode == Mode::C02 && ctx.wants("reblock") {
         sink.rep.space(
@@ -912,6 +986,81 @@ fn sweep(mode: Mode, ctx: &mut Ctx, rep: &mut Report) {
                             }
                         }
                     }
+                }
+            }
+        }
+    }
+    // ---- matrices at the edges of the 8-bit discretisation: large common offsets; long motifs -----------
+    if ctx.wants("extremes") && !ctx.capped {
+        sink.rep.space(
+            "extremes",
+            "(a) all 5^M matrices, M in 1..=3, over five rows whose cells share a large offset relative to their spread (65536 + {0, 1/128, 1/2, 1}; 65536 + {1/4, 0, 1/8, 3/4}; 2^20 + {0, 1/2, 1, 2}; 65536 + {0, 1, 2, 3}/128; 65536 + {5, 0, 9, 2}/128; wildcard -inf): one discrete step is far smaller than the f32 rounding of a window score; \
+             sequences of 33 / 70 / 200 symbols x 2 contents; (b) long motifs M in {40, 70, 100} (3 cell flavours whose rounded-up row maxima sum far past 255) on consensus / anti-consensus / every single-substitution neighbour; \
+             x <= 4 (a) / 3 (b) attainable thresholds + below / above x block sizes {1, 256} x dispatcher arms {generic, sse2, avx2}; same oracle and histories as `small`",
+        );
+        let off_rows: [[f32; 4]; 5] = [
+            [65536.0, 65536.0078125, 65536.5, 65537.0],
+            [65536.25, 65536.0, 65536.125, 65536.75],
+            [1048576.0, 1048576.5, 1048577.0, 1048578.0],
+            // spreads of a few f32 steps only: the rounding error of a window score is worth tens of discrete levels
+            [65536.0, 65536.0078125, 65536.015625, 65536.0234375],
+            [65536.0390625, 65536.0, 65536.0703125, 65536.015625],
+        ];
+        for m in 1..=3usize {
+            for mi in 0..5u64.pow(m as u32) {
+                for &l in &[33usize, 70, 200] {
+                    for pat in [0usize, 2] {
+                        let idx = base;
+                        base += 1;
+                        if !ctx.mine(idx) {
+                            continue;
+                        }
+                        let matrix: Vec<Vec<f32>> = model::nth_word(mi, m, 5)
+                            .iter()
+                            .map(|&d| {
+                                let r = off_rows[d as usize];
+                                vec![r[0], r[1], r[2], r[3], f32::NEG_INFINITY]
+                            })
+                            .collect();
+                        let seq = content(l, pat);
+                        let ts = threshold_menu(&matrix, &seq, 4);
+                        let probe = Config { seq: seq.clone(), matrix: matrix.clone(), threshold: 0.0, block: 1, arm: Forced::Generic, origin: String::new(), pre_wrap: None, exact: false, spare: 0 };
+                        let or = Oracle::new(&probe);
+                        for &t in &ts {
+                            for &block in &[1usize, 256] {
+                                for arm in cfgs::FORCED {
+                                    let cfg = Config { seq: seq.clone(), matrix: matrix.clone(), threshold: t, block, arm, origin: format!("extremes/offset L={} content={} M={} matrix#{}", l, pat, m, mi), pre_wrap: None, exact: false, spare: 0 };
+                                    sink.config(&cfg, &or);
+                                }
+                            }
+                        }
+                    }
+                }
+            }
+        }
+        for &m in &[40usize, 70, 100] {
+            for fl in 0..3usize {
+                let idx = base;
+                base += 1;
+                if !ctx.mine(idx) {
+                    continue;
+                }
+                let matrix = crate::c08::wide_matrix(m, fl);
+                let seq = crate::c08::wide_sequence(&matrix);
+                let ts = threshold_menu(&matrix, &seq, 3);
+                let probe = Config { seq: seq.clone(), matrix: matrix.clone(), threshold: 0.0, block: 1, arm: Forced::Generic, origin: String::new(), pre_wrap: None, exact: false, spare: 0 };
+                let or = Oracle::new(&probe);
+                for &t in &ts {
+                    for &block in &[1usize, 256] {
+                        for arm in cfgs::FORCED {
+                            let cfg = Config { seq: seq.clone(), matrix: matrix.clone(), threshold: t, block, arm, origin: format!("extremes/long-motif M={} flavour={}", m, fl), pre_wrap: None, exact: false, spare: 0 };
+                            sink.config(&cfg, &or);
+                        }
+                    }
+                }
+                if ctx.out_of_time() {
+                    sink.rep.cap(format!("extremes: wall-clock cap at M={}", m));
+                    break;
                 }
             }
         }
@@ -1028,6 +1177,19 @@ pub fn replay_c03(_ctx: &mut Ctx, rep: &mut Report, v: &Value) {
     let or = Oracle::new(&cfg);
     let k = v["k"].as_u64().unwrap_or(0) as usize;
     rep.eval_distinct(true);
+    if v["kind"].as_str() == Some("rethreshold_max") {
+        let t2 = model::f32_from_json(&v["threshold2"]);
+        let cfg2 = Config { threshold: t2, ..cfg.clone() };
+        match run_scanner(&cfg, &After::RethresholdMax(k, t2)) {
+            Err(p) => rep.violation(format!("C03 {} rethreshold_max panic {}", cfgs::arm_name(cfg.arm), vx_core::util::panic_class(&p)), format!("panic: {}", p), || cfg.json()),
+            Ok(out) => {
+                if let Err((sig, msg)) = judge_max(&cfg2, &or, &out) {
+                    rep.violation(format!("C03 {} rethreshold_max {}", cfgs::arm_name(cfg.arm), sig), msg, || cfg.json());
+                }
+            }
+        }
+        return;
+    }
     if v["by_ref"].as_bool() == Some(true) {
         match run_scanner(&cfg, &After::MaxByRef(k)) {
             Err(p) => rep.violation(format!("C03 {} by_ref().max() panic {}", cfgs::arm_name(cfg.arm), vx_core::util::panic_class(&p)), format!("panic: {}", p), || cfg.json()),
